@@ -331,11 +331,10 @@ where
                                 break;
                             }
                         }
-                        // an exhausted iterator may be asked again: nothing more, and no crash
+                        // an exhausted iterator may be asked again: whatever it answers (the trait leaves that
+                        // open for iterators that are not fused), it must not crash
                         let _ = it.size_hint();
-                        if let Some(v) = it.next() {
-                            got.push(v);
-                        }
+                        let _ = it.next();
                     } else if take == TAKE_ALL_FORGET {
                         for v in &mut it {
                             got.push(v);
